@@ -3,6 +3,7 @@ package loader
 import (
 	"fmt"
 	"github.com/f1bonacc1/process-compose/src/command"
+	"github.com/f1bonacc1/process-compose/src/health"
 	"github.com/f1bonacc1/process-compose/src/templater"
 	"github.com/f1bonacc1/process-compose/src/types"
 	"github.com/rs/zerolog/log"
@@ -101,6 +102,10 @@ func cloneReplicas(p *types.Project) {
 			if proc.Replicas == 1 {
 				p.Processes[repName] = proc
 			} else {
+				// every replica gets its own probes and vars: they are rendered per replica
+				proc.LivenessProbe = cloneProbe(proc.LivenessProbe)
+				proc.ReadinessProbe = cloneProbe(proc.ReadinessProbe)
+				proc.Vars = cloneVars(proc.Vars)
 				procsToAdd = append(procsToAdd, proc)
 			}
 		}
@@ -111,6 +116,33 @@ func cloneReplicas(p *types.Project) {
 	for _, proc := range procsToAdd {
 		p.Processes[proc.ReplicaName] = proc
 	}
+}
+
+func cloneProbe(probe *health.Probe) *health.Probe {
+	if probe == nil {
+		return nil
+	}
+	clone := *probe
+	if probe.Exec != nil {
+		exec := *probe.Exec
+		clone.Exec = &exec
+	}
+	if probe.HttpGet != nil {
+		httpGet := *probe.HttpGet
+		clone.HttpGet = &httpGet
+	}
+	return &clone
+}
+
+func cloneVars(vars types.Vars) types.Vars {
+	if vars == nil {
+		return nil
+	}
+	clone := make(types.Vars, len(vars))
+	for k, v := range vars {
+		clone[k] = v
+	}
+	return clone
 }
 
 func assignExecutableAndArgs(p *types.Project) {
